@@ -810,6 +810,29 @@ def rule_lk1(ctx, rels, scope=None):
                             and t.value.id in bufs):
                         continue
                     d, like, exact_ok, lit_dtype = bufs[t.value.id]
+                    # a stored local with one definition stands for that
+                    # definition (`re = utils.real(mat); buf[..] = re`)
+                    sd0 = single_defs(f.node)
+
+                    def _res(e, depth=0):
+                        if isinstance(e, ast.UnaryOp) and isinstance(
+                                e.operand, ast.Name):
+                            inner = _res(e.operand, depth)
+                            if inner is not e.operand:
+                                return ast.UnaryOp(e.op, inner)
+                            return e
+                        if depth < 4 and isinstance(e, ast.Name) \
+                                and e.id in sd0 and e.id not in f.params \
+                                and (e.id, like) not in likedefs \
+                                and e.id not in inexact_locals \
+                                and isinstance(sd0[e.id], ast.Call) \
+                                and dotted(sd0[e.id].func) in (
+                                    "utils.real", "utils.imag", "np.real",
+                                    "np.imag", "np.conjugate",
+                                    "utils.conjugate"):
+                            return sd0[e.id]
+                        return e
+                    v = _res(v)
                     safe = isinstance(v, ast.Constant) or dotted(v) == like \
                         or (isinstance(v, ast.Name)
                             and (v.id, like) in likedefs)
